@@ -637,7 +637,9 @@ class TunnelCommunity(Community):
             hop.keys = session_keys
 
         except ValueError:
-            self.remove_circuit(circuit.circuit_id, "error while verifying shared secret")
+            # Anyone can send us a plaintext created with malformed key material: ignore it, like an answer that
+            # fails verification, instead of letting it tear down the circuit we are building.
+            self.logger.warning("Ignoring a created/extended with malformed key material for circuit %d", circuit_id)
             return
 
         circuit.unverified_hop = None
